@@ -461,6 +461,9 @@ func c18ExecGlueCli(f []string) (string, []Fail) {
 		}
 	}
 	k, okk := c18ResolveK(f[4][2:], len(e1))
+	if f[4] == "k=y-1" { // one byte short of the second file
+		k, okk = len(e2)-1, len(e2) > 0
+	}
 	if !okk {
 		return "bad-op", nil
 	}
@@ -473,8 +476,11 @@ func c18ExecGlueCli(f []string) (string, []Fail) {
 	if k < len(e1) || (two && k < len(e2)) {
 		stat("glue:fault-injected")
 		stat("glue:cli:fault-by-rlimit")
-		if two && (k >= len(e1)) != (k >= len(e2)) {
-			stat("glue:cli:one-of-two-files-fails")
+		if two && k < len(e1) && k >= len(e2) {
+			stat("glue:cli:only-file-1-of-2-fails")
+		}
+		if two && k >= len(e1) && k < len(e2) {
+			stat("glue:cli:only-file-2-of-2-fails")
 		}
 	}
 	class := "plain"
@@ -514,6 +520,17 @@ func c18GenGlue(rng *rand.Rand, tier string, add func(string)) {
 		add(strings.TrimSpace(fmt.Sprintf("glue ws fo=%s gz=%d k=%s cf=%d zlen=0 own=%d ek=%d %s", fo, gz, k, cf, own, ek, c18GBStr(arr))))
 	}
 	cli := func(fo string, gz int, k string, to string, paired int, arr []c18GB) {
+		if fo == "auto" && paired == 1 && to == "file" {
+			// the batches reach the writer of the mates in the order the workers of the first writer release them
+			// (CLIWriteBioSequences runs several): the format guessed for the second file is that of whichever batch
+			// comes first.  Keep that guess independent of the schedule: no empty batch among batches with qualities.
+			arr = append([]c18GB{}, arr...)
+			for i := range arr {
+				if arr[i].n == 0 && arr[i].q == 1 {
+					arr[i].n = 1
+				}
+			}
+		}
 		add(strings.TrimSpace(fmt.Sprintf("glue cli fo=%s gz=%d k=%s zlen=0 zlen2=0 to=%s paired=%d %s", fo, gz, k, to, paired, c18GBStr(arr))))
 	}
 	none := []c18GB{}
@@ -524,6 +541,7 @@ func c18GenGlue(rng *rand.Rand, tier string, add func(string)) {
 	firstEmpty := []c18GB{{1, 0, 1}, {0, 2, 1}, {2, 3, 1}} // the batch that arrives first is empty: FASTA although all have qualities
 	several := []c18GB{{1, 30, 1}, {0, 30, 1}, {2, 30, 1}}
 	severalNoQ := []c18GB{{2, 4, 0}, {0, 30, 0}, {1, 0, 0}}
+	several2 := []c18GB{{1, 4, 1}, {0, 1, 1}} // the file of the mates is the larger one
 	fos := []string{"auto", "fasta", "fastq", "json"}
 	// results with NO record (no batch / empty batches only): every byte offset of what has to be written, and Close
 	for _, fo := range fos {
@@ -568,7 +586,10 @@ func c18GenGlue(rng *rand.Rand, tier string, add func(string)) {
 			cli(fo, gz, "0", "file", 1, none)
 			cli(fo, gz, "z-1", "file", 1, oneRecQ)
 			cli(fo, gz, "z", "file", 1, several)   // file 1 fits exactly; file 2 (other records) may not
-			cli(fo, gz, "z+1", "file", 1, several)
+			cli(fo, gz, "z-1", "file", 1, several) // only one of the two files fails
+			cli(fo, gz, "y-1", "file", 1, several)
+			cli(fo, gz, "z-1", "file", 1, several2)
+			cli(fo, gz, "y-1", "file", 1, several2)
 			cli(fo, gz, "1048576", "file", 1, firstEmpty)
 			cli(fo, gz, "z/2", "stdout", 1, several) // a paired result on standard output
 		}
